@@ -102,6 +102,15 @@ def _run_child(case, cfg, i, folder, out, use_pool):
                     exec(SAMPLE_SRC, __main__.__dict__)  # noqa: S102
                     inputs = {k: (__main__.Sample(v) if isinstance(v, str) else v) for k, v in inputs.items()}
                 pipeline = mapgen.build_pipeline(case, extra=extra)
+                if i % 4 == 3:
+                    # the folder (and this process) already served ANOTHER run with other input values, which was loaded
+                    try:
+                        old = {k: ([str(y) + "~old" for y in x] if isinstance(x, list) else x) for k, x in inputs.items()}
+                        pipeline.map(old, run_folder=folder, internal_shapes=mapgen.internal_shapes_arg(case),
+                                     storage=storage_arg(case, cfg, i), parallel=False)
+                        loader04.describe_folder(folder, [o for f in case["funcs"] for o in f["outs"]])
+                    except Exception:  # noqa: BLE001
+                        pass
                 kw = {"parallel": False}
                 ex = None
                 if use_pool:
